@@ -2,6 +2,7 @@
    it brackets the replaced sub-value; resolve / plug facts; well-formedness of a plugged value. *)
 From SF Require Import Base.Prelude Gen.Generated Unsized.Types Unsized.Parse Unsized.Machine Unsized.Ops.
 From SF Require Import Unsized.Proofs.EncodeParse Unsized.Proofs.Mem Unsized.Proofs.Notify Unsized.Proofs.Flat Unsized.Proofs.Layout Unsized.Proofs.Table Unsized.Proofs.Path.
+From SF Require Import Unsized.Proofs.EnumFacts.
 
 Arguments Z.add : simpl never.
 Arguments Z.sub : simpl never.
@@ -273,6 +274,24 @@ Proof.
   intros H. exists it, k, items, kv. repeat split; auto.
 Qed.
 
+Lemma resolve_SV_inv t v r X xv : resolve t v (SV :: r) = Some (X, xv) ->
+  exists rw vars d p vt, t = TEnum rw vars /\ v = VEnum d p /\ find_variant d vars = Some vt /\
+                         resolve vt p r = Some (X, xv).
+Proof.
+  cbn [resolve]. destruct t as [c|c lw| |it k|ts|rw vars]; try discriminate.
+  destruct v as [bs|items|items|vs|d0 p]; try discriminate.
+  destruct (find_variant d0 vars) as [vt|] eqn:Hf; [|discriminate].
+  intros H. exists rw, vars, d0, p, vt. repeat split; auto.
+Qed.
+
+Lemma plug_SV rw vars d p r x vt : find_variant d vars = Some vt ->
+  plug (TEnum rw vars) (VEnum d p) (SV :: r) x = VEnum d (plug vt p r x).
+Proof. intros H. cbn [plug]. now rewrite H. Qed.
+
+Lemma hctx_SV rw vars dd p r vt : find_variant dd vars = Some vt -> forall d,
+  hctx (TEnum rw vars) (VEnum dd p) (SV :: r) d = (le_bytes rw dd ++ fst (hctx vt p r d), snd (hctx vt p r d)).
+Proof. intros H d. cbn [hctx]. rewrite H. destruct (hctx vt p r d); reflexivity. Qed.
+
 Lemma plug_SF ts vs i r x ti vi : nth_error ts i = Some ti -> nth_error vs i = Some vi ->
   plug (TStruct ts) (VStruct vs) (SF i :: r) x = VStruct (set_nth i (plug ti vi r x) vs).
 Proof. intros H1 H2. cbn [plug]. now rewrite H1, H2. Qed.
@@ -297,7 +316,7 @@ Proof. intros H d. cbn [hctx]. rewrite H. destruct (hctx it (snd kv) r d); refle
 (* the context does not depend on d except in the ancestors' headers, whose length is fixed         *)
 Lemma hctx_snd t v pi d : snd (hctx t v pi d) = snd (hctx t v pi 0).
 Proof.
-  revert t v. induction pi as [|[i|i] r IH]; intros t v; [reflexivity| |].
+  revert t v. induction pi as [|[i|i|] r IH]; intros t v; [reflexivity| | |].
   - destruct t as [c|c lw| |it k|ts|rw vars]; try reflexivity.
     destruct v as [bs|items|items|vs|d0 p]; try reflexivity.
     destruct (nth_error ts i) as [ti|] eqn:Hti; [|cbn [hctx]; rewrite Hti; reflexivity].
@@ -307,11 +326,15 @@ Proof.
     destruct v as [bs|items|items|vs|d0 p]; try reflexivity.
     destruct (nth_error items i) as [kv|] eqn:Hkv; [|cbn [hctx]; rewrite Hkv; reflexivity].
     rewrite !(hctx_SE _ _ _ _ _ _ Hkv). cbn [snd]. now rewrite IH.
+  - destruct t as [c|c lw| |it k|ts|rw vars]; try reflexivity.
+    destruct v as [bs|items|items|vs|d0 p]; try reflexivity.
+    destruct (find_variant d0 vars) as [vt|] eqn:Hf; [|cbn [hctx]; rewrite Hf; reflexivity].
+    rewrite !(hctx_SV _ _ _ _ _ _ Hf). cbn [snd]. now rewrite IH.
 Qed.
 
 Lemma hctx_fst_len t v pi d : zlen (fst (hctx t v pi d)) = zlen (fst (hctx t v pi 0)).
 Proof.
-  revert t v. induction pi as [|[i|i] r IH]; intros t v; [reflexivity| |].
+  revert t v. induction pi as [|[i|i|] r IH]; intros t v; [reflexivity| | |].
   - destruct t as [c|c lw| |it k|ts|rw vars]; try reflexivity.
     destruct v as [bs|items|items|vs|d0 p]; try reflexivity.
     destruct (nth_error ts i) as [ti|] eqn:Hti; [|cbn [hctx]; rewrite Hti; reflexivity].
@@ -323,13 +346,17 @@ Proof.
     rewrite !(hctx_SE _ _ _ _ _ _ Hkv). cbn [fst]. rewrite !zlen_app, IH.
     rewrite (zlen_uhdr (bump i d (usizes it items)) (bump i 0 (usizes it items))) by (rewrite !bump_length; reflexivity).
     reflexivity.
+  - destruct t as [c|c lw| |it k|ts|rw vars]; try reflexivity.
+    destruct v as [bs|items|items|vs|d0 p]; try reflexivity.
+    destruct (find_variant d0 vars) as [vt|] eqn:Hf; [|cbn [hctx]; rewrite Hf; reflexivity].
+    rewrite !(hctx_SV _ _ _ _ _ _ Hf). cbn [fst]. rewrite !zlen_app, IH. reflexivity.
 Qed.
 
 (* the context brackets the sub-value *)
 Lemma hctx_encode t v pi X xv :
   resolve t v pi = Some (X, xv) -> encode t v = fst (hctx t v pi 0) ++ encode X xv ++ snd (hctx t v pi 0).
 Proof.
-  revert t v. induction pi as [|[i|i] r IH]; intros t v Hr.
+  revert t v. induction pi as [|[i|i|] r IH]; intros t v Hr.
   - cbn [resolve] in Hr. injection Hr as -> ->. cbn [hctx fst snd app]. now rewrite app_nil_r.
   - apply resolve_SF_inv in Hr as (ts & vs & ti & vi & -> & -> & Hti & Hvi & Hr).
     rewrite !(hctx_SF _ _ _ _ _ _ Hti Hvi). cbn [fst snd].
@@ -337,6 +364,9 @@ Proof.
   - apply resolve_SE_inv in Hr as (it & k & items & kv & -> & -> & Hkv & Hr).
     rewrite !(hctx_SE _ _ _ _ _ _ Hkv). cbn [fst snd].
     rewrite (encode_ulist_split _ _ _ _ _ Hkv), (IH _ _ Hr), bump_zero. rewrite <- !app_assoc. reflexivity.
+  - apply resolve_SV_inv in Hr as (rw & vars & d0 & p & vt & -> & -> & Hf & Hr).
+    rewrite !(hctx_SV _ _ _ _ _ _ Hf). cbn [fst snd].
+    rewrite (encode_enum_some _ _ _ _ _ Hf), (IH _ _ Hr). rewrite <- !app_assoc. reflexivity.
 Qed.
 
 (* ... and, with the ancestors' headers adjusted by the size difference, the value with the sub-value replaced *)
@@ -345,7 +375,7 @@ Lemma hctx_plug t v pi X xv x' :
   encode t (plug t v pi x') =
   fst (hctx t v pi (zlen (encode X x') - zlen (encode X xv))) ++ encode X x' ++ snd (hctx t v pi 0).
 Proof.
-  revert t v. induction pi as [|[i|i] r IH]; intros t v Hr.
+  revert t v. induction pi as [|[i|i|] r IH]; intros t v Hr.
   - cbn [resolve] in Hr. injection Hr as -> ->. cbn [plug hctx fst snd app]. now rewrite app_nil_r.
   - apply resolve_SF_inv in Hr as (ts & vs & ti & vi & -> & -> & Hti & Hvi & Hr).
     rewrite (plug_SF _ _ _ _ _ _ _ Hti Hvi), !(hctx_SF _ _ _ _ _ _ Hti Hvi). cbn [fst snd].
@@ -359,6 +389,9 @@ Proof.
     { pose proof (f_equal (@zlen Z) Hp) as Hp'. pose proof (f_equal (@zlen Z) He) as He'.
       rewrite !zlen_app in Hp', He'. rewrite hctx_fst_len in Hp'. lia. }
     rewrite Hd, Hp. rewrite <- !app_assoc. reflexivity.
+  - apply resolve_SV_inv in Hr as (rw & vars & d0 & p & vt & -> & -> & Hf & Hr).
+    rewrite (plug_SV _ _ _ _ _ _ _ Hf), !(hctx_SV _ _ _ _ _ _ Hf). cbn [fst snd].
+    rewrite (encode_enum_some _ _ _ _ _ Hf), (IH _ _ Hr). rewrite <- !app_assoc. reflexivity.
 Qed.
 
 Lemma hctx_plug_len t v pi X xv x' :
@@ -372,7 +405,7 @@ Qed.
 (* resolve after plug, and what the sub-value inherits                                             *)
 Lemma resolve_plug t v pi X xv x' : resolve t v pi = Some (X, xv) -> resolve t (plug t v pi x') pi = Some (X, x').
 Proof.
-  revert t v. induction pi as [|[i|i] r IH]; intros t v Hr.
+  revert t v. induction pi as [|[i|i|] r IH]; intros t v Hr.
   - cbn [resolve] in Hr. injection Hr as -> ->. reflexivity.
   - apply resolve_SF_inv in Hr as (ts & vs & ti & vi & -> & -> & Hti & Hvi & Hr).
     rewrite (plug_SF _ _ _ _ _ _ _ Hti Hvi). cbn [resolve].
@@ -380,21 +413,25 @@ Proof.
   - apply resolve_SE_inv in Hr as (it & k & items & kv & -> & -> & Hkv & Hr).
     rewrite (plug_SE _ _ _ _ _ _ _ Hkv). cbn [resolve].
     rewrite (nth_error_set_nth _ _ _ _ Hkv). cbn [snd]. exact (IH _ _ Hr).
+  - apply resolve_SV_inv in Hr as (rw & vars & d0 & p & vt & -> & -> & Hf & Hr).
+    rewrite (plug_SV _ _ _ _ _ _ _ Hf). cbn [resolve]. rewrite Hf. exact (IH _ _ Hr).
 Qed.
 
 Lemma resolve_plain t v pi X xv : plain t = true -> resolve t v pi = Some (X, xv) -> plain X = true.
 Proof.
-  revert t v. induction pi as [|[i|i] r IH]; intros t v Hp Hr.
+  revert t v. induction pi as [|[i|i|] r IH]; intros t v Hp Hr.
   - cbn [resolve] in Hr. injection Hr as -> ->. exact Hp.
   - apply resolve_SF_inv in Hr as (ts & vs & ti & vi & -> & -> & Hti & Hvi & Hr).
     exact (IH _ _ (plain_field _ _ _ Hp Hti) Hr).
   - apply resolve_SE_inv in Hr as (it & k & items & kv & -> & -> & Hkv & Hr).
     cbn [plain] in Hp. exact (IH _ _ Hp Hr).
+  - apply resolve_SV_inv in Hr as (rw & vars & d0 & p & vt & -> & -> & Hf & Hr).
+    exact (IH _ _ (plain_enum_find _ _ _ _ Hp Hf) Hr).
 Qed.
 
 Lemma resolve_wf t v pi X xv : wf t v = true -> resolve t v pi = Some (X, xv) -> wf X xv = true.
 Proof.
-  revert t v. induction pi as [|[i|i] r IH]; intros t v Hwf Hr.
+  revert t v. induction pi as [|[i|i|] r IH]; intros t v Hwf Hr.
   - cbn [resolve] in Hr. injection Hr as -> ->. exact Hwf.
   - apply resolve_SF_inv in Hr as (ts & vs & ti & vi & -> & -> & Hti & Hvi & Hr).
     rewrite (wf_struct_split _ _ _ _ _ Hti Hvi) in Hwf.
@@ -402,13 +439,16 @@ Proof.
   - apply resolve_SE_inv in Hr as (it & k & items & kv & -> & -> & Hkv & Hr).
     pose proof (ulist_facts _ _ _ Hwf) as F.
     exact (IH _ _ (wf_nth _ _ _ _ (uf_wfs _ _ _ F) Hkv) Hr).
+  - apply resolve_SV_inv in Hr as (rw & vars & d0 & p & vt & -> & -> & Hf & Hr).
+    destruct (wf_enum_inv _ _ _ _ Hwf) as (_ & vt' & Hf' & Hp). rewrite Hf in Hf'. injection Hf' as <-.
+    exact (IH _ _ Hp Hr).
 Qed.
 
 (* the sub-value's position: last only if everything above it is last *)
 Lemma resolve_ty_ok t v pi X xv last :
   ty_ok last t = true -> resolve t v pi = Some (X, xv) -> exists l', ty_ok l' X = true /\ (l' = true -> last = true).
 Proof.
-  revert t v last. induction pi as [|[i|i] r IH]; intros t v last Hok Hr.
+  revert t v last. induction pi as [|[i|i|] r IH]; intros t v last Hok Hr.
   - cbn [resolve] in Hr. injection Hr as -> ->. exists last. auto.
   - apply resolve_SF_inv in Hr as (ts & vs & ti & vi & -> & -> & Hti & Hvi & Hr).
     destruct (ty_ok_field _ _ _ _ Hok Hti) as (l1 & Hok1 & Hl1).
@@ -416,6 +456,8 @@ Proof.
   - apply resolve_SE_inv in Hr as (it & k & items & kv & -> & -> & Hkv & Hr).
     cbn [ty_ok] in Hok. destruct (IH _ _ _ Hok Hr) as (l2 & Hok2 & Hl2).
     exists l2. split; [exact Hok2|]. intros H. discriminate (Hl2 H).
+  - apply resolve_SV_inv in Hr as (rw & vars & d0 & p & vt & -> & -> & Hf & Hr).
+    exact (IH _ _ _ (ty_ok_enum_variant _ _ _ _ _ Hok Hf) Hr).
 Qed.
 
 (* ---------------------------------------------------------------------------------------------- *)
@@ -451,7 +493,7 @@ Lemma wf_plug t v pi X xv x' :
   wf t v = true -> resolve t v pi = Some (X, xv) -> wf X x' = true ->
   zlen (encode t (plug t v pi x')) < U32_LIMIT -> wf t (plug t v pi x') = true.
 Proof.
-  revert t v. induction pi as [|[i|i] r IH]; intros t v Hwf Hr Hx Hlt.
+  revert t v. induction pi as [|[i|i|] r IH]; intros t v Hwf Hr Hx Hlt.
   - cbn [resolve] in Hr. injection Hr as -> ->. cbn [plug]. exact Hx.
   - apply resolve_SF_inv in Hr as (ts & vs & ti & vi & -> & -> & Hti & Hvi & Hr).
     rewrite (plug_SF _ _ _ _ _ _ _ Hti Hvi) in *.
@@ -472,6 +514,12 @@ Proof.
       match type of Hlt with zlen ?a + (zlen ?b + (_ + zlen ?c)) < _ =>
         pose proof (zlen_nonneg a); pose proof (zlen_nonneg b); pose proof (zlen_nonneg c) end. lia. }
     apply wf_ulist_set_nth; assumption.
+  - apply resolve_SV_inv in Hr as (rw & vars & d0 & p & vt & -> & -> & Hf & Hr).
+    rewrite (plug_SV _ _ _ _ _ _ _ Hf) in *.
+    destruct (wf_enum_inv _ _ _ _ Hwf) as (Hd & vt' & Hf' & Hp). rewrite Hf in Hf'. injection Hf' as <-.
+    rewrite (zlen_encode_enum _ _ _ _ _ Hf) in Hlt.
+    rewrite wf_enum, Hf. rewrite (IH _ _ Hp Hr Hx) by lia.
+    destruct (0 <=? d0) eqn:E1; [|zb; lia]. destruct (d0 <? 256 ^ Z.of_nat rw) eqn:E2; [|zb; lia]. reflexivity.
 Qed.
 
 Print Assumptions hctx_plug. Print Assumptions wf_plug.
